@@ -173,8 +173,17 @@ impl NameCompressor {
                     // Record its use at this (approximate) position.
                     let use_pos = contents.len() + name.len();
                     let use_pos = use_pos.max(1);
+                    //
+                    // The position is approximate (it counts the labels
+                    // in front of the entry as if they were written out,
+                    // which they are not when a child entry matches too),
+                    // so a later use can compute a smaller value than an
+                    // earlier one. An entry's stamp must never drop below
+                    // that of its children, or it would be evicted before
+                    // them: only ever move it forward.
                     if use_pos < 16383 + 253 {
-                        self.last_use[parent as usize] = use_pos as u16;
+                        let slot = &mut self.last_use[parent as usize];
+                        *slot = (*slot).max(use_pos as u16);
                     }
                 }
                 None => break,
@@ -354,8 +363,17 @@ impl NameCompressor {
                     // Record its use at this (approximate) position.
                     let use_pos = contents.len() + name.len();
                     let use_pos = use_pos.max(1);
+                    //
+                    // The position is approximate (it counts the labels
+                    // in front of the entry as if they were written out,
+                    // which they are not when a child entry matches too),
+                    // so a later use can compute a smaller value than an
+                    // earlier one. An entry's stamp must never drop below
+                    // that of its children, or it would be evicted before
+                    // them: only ever move it forward.
                     if use_pos < 16383 + 253 {
-                        self.last_use[parent as usize] = use_pos as u16;
+                        let slot = &mut self.last_use[parent as usize];
+                        *slot = (*slot).max(use_pos as u16);
                     }
                 }
                 None => break,
